@@ -133,6 +133,40 @@ CHECKS = {
         note="Trusted: vf/refmodel.py (processed steps), recogniser and report parsers in vf/props/c15.py. Unprocessed steps carry no "
              "status in JSON and are not compared after read-back. pretty/progress/null/rerun are exercised for crashes and stream "
              "agreement only."),
+    "C11": dict(
+        level="exploration", design="DESIGN.md 5/C11",
+        technique="property-based testing: abstract patterns rendered for every matcher kind with instances known by construction; "
+                  "stateful registration histories (Hypothesis RuleBasedStateMachine) replayed against an own reference matcher / "
+                  "registry model; generated step modules loaded with load_step_modules",
+        text="Patterns are generated abstractly (literals + typed fields / regex groups) and rendered for parse, cfparse, re, re0 and "
+             "cucumber expressions; step texts are derived so that the expected binding, winner, argument values, names and spans are "
+             "known by construction. Registration histories (register / use_step_matcher / register_type / lookup) run against a fresh "
+             "StepRegistry and a reference model (type list first, then generic, first registration wins; AmbiguousStep; same "
+             "definition ignored); generated step modules check the matcher reset between modules.",
+        note="Trusted: reference matcher (anchored case-sensitive regex built from the abstract pattern) in vf/props/c11.py. "
+             "Arguments compared exactly only where greedy and lazy reference matches agree."),
+    "C19": dict(
+        level="exploration", design="DESIGN.md 5/C19",
+        technique="exhaustive enumeration of tag multisets (size <= 4) x current-value assignments x provider kinds + random "
+                  "configurations (Hypothesis); own reference implementation of the documented per-category logic as oracle",
+        text="All tag multisets of size 0-4 over 5 prefixes x 3 categories (one unknown) x 3 values mixed with ordinary and look-alike "
+             "tags are enumerated (complete up to size 3 with all assignments, size 4 with rotating assignments; thorough: everything), "
+             "for dict / ValueObject / lazy / ActiveTagValueProvider / composite providers and CompositeTagMatcher, number and bool "
+             "value objects, custom prefixes and separators; should_exclude_with / should_run_with are compared with an own "
+             "implementation of the documented formula (~1.4M evaluations per quick run).",
+        note="Trusted: reference logic and own tag-schema parser in vf/props/c19.py. Separators are taken literally (assumption)."),
+    "C20": dict(
+        level="exploration", design="DESIGN.md 5/C20",
+        technique="property-based testing: scratch cwd/HOME with generated config files x generated command lines, Configuration built "
+                  "in-process and compared with an own precedence model from docs/behave.rst; complete enumerations for booleans, -D "
+                  "strings and getters",
+        text="Per case 0-2 configuration files (behave.ini/.behaverc/setup.cfg/tox.ini/pyproject.toml, in cwd and/or HOME) assign a "
+             "subset of the documented options and a command line assigns another subset; every attribute of Configuration is compared "
+             "with: command line, else file, else documented default; append options, paths/outfiles resolution, documented couplings "
+             "and userdata (-D parsing, precedence, typed getters) are modelled; complete: every boolean x file x command line x "
+             "{ini,toml}, every -D value over a small alphabet up to length 3, the getter table.",
+        note="Trusted: option model in vf/props/c20.py derived from docs/behave.rst. Open: merging of several files, contradictory "
+             "forcing options, undocumented defaults."),
 }
 
 PENDING_REASON = "not yet claimed in this revision: the check for this property is still under construction (see DESIGN.md 5)"
